@@ -54,30 +54,51 @@ def _post(kw, attr):
     return post
 
 
-_POOL = ["", "a", "a b", 'a"b', "a'b", "'", '"', "\"'", "é]", "x&y", "]", "[1]", '" or "1"="1']
+_POOL = ["", "a", "a b", 'a"b', "a'b", "'", '"', "\"'", "é]", "x&y", "]", "[1]", '" or "1"="1', "it's \"x\""]
 
-contract(
-    "odfdo.utils.xpath_query:make_xpath_query",
-    sig=[dict(query_string=Str.of(pool=["descendant::x", "a/b"]), **{kw: Str.of(pool=_POOL)}) for kw in ID_KWARGS],
-    cases={
-        "plain": lambda a: S.Not(_has_dq(a)),
-        "has-dquote": lambda a: _has_dq(a),
-    },
-    ensures=[Clause("literal", {"C14"}, lambda a, r, p: _dispatch_post(a, r, p))],
-    result=Str,
-    note="one signature case per identifier keyword; the other keywords keep their default None",
-)
+
+def _has_dq(a):
+    return S.contains(a[_kw_of(a)], '"')
+
+
+def _has_sq(a):
+    return S.contains(a[_kw_of(a)], "'")
 
 
 def _kw_of(a):
-    for kw in ID_KWARGS:
+    for kw in list(ID_KWARGS) + ["value"]:
         if kw in a.__dict__ and a.__dict__[kw] is not None:
             return kw
     raise KeyError("no identifier keyword")
 
 
-def _has_dq(a):
-    return S.contains(a[_kw_of(a)], '"')
+_CASES = {
+    "plain": lambda a: S.Not(_has_dq(a)),
+    "dquote-only": lambda a: S.And(_has_dq(a), S.Not(_has_sq(a))),
+    "both-quotes": lambda a: S.And(_has_dq(a), _has_sq(a)),
+}
+_BOUNDED = {"both-quotes": dict(
+    scope="identifiers of the pool containing both quote kinds, evaluated with lxml's XPath engine",
+    reason="concat(...) form built with str.split / join over a symbolic number of parts: outside the "
+           "executor's string fragment")}
+
+contract(
+    "odfdo.utils.xpath_query:xpath_literal",
+    sig=dict(value=Str.of(pool=_POOL)),
+    cases=_CASES, bounded_cases=_BOUNDED,
+    ensures=[Clause("literal", {"C14"}, lambda a, r, p: literal_for(r, a.value))],
+    result=Str,
+)
+
+contract(
+    "odfdo.utils.xpath_query:make_xpath_query",
+    sig=[dict(query_string=Str.of(pool=["descendant::x", "a/b"]), **{kw: Str.of(pool=_POOL)}) for kw in ID_KWARGS],
+    cases=_CASES, bounded_cases=_BOUNDED,
+    inline={"odfdo.utils.xpath_query:xpath_literal"},
+    ensures=[Clause("literal", {"C14"}, lambda a, r, p: _dispatch_post(a, r, p))],
+    result=Str,
+    note="one signature case per identifier keyword; the other keywords keep their default None",
+)
 
 
 def _dispatch_post(a, r, p):
